@@ -131,28 +131,45 @@ theorem byNumber_numberFrom (pre x : String) (f : String → String) : ∀ (opts
       simp only [hne, Bool.false_eq_true, if_false]
       exact ih (k + 1) v h
 
-theorem values_plain (d : EnumDecl) (hwf : enumDeclWF d = true) :
-    d.values = (d.pfx ++ "UNSPECIFIED", 0) :: numberFrom d.pfx 1 d.options := by
-  simp only [enumDeclWF, Bool.and_eq_true] at hwf
+theorem eq_append_of_hasPrefix (pre o : String) (h : hasPrefix pre o = true) :
+    o = pre ++ String.ofList (o.toList.drop pre.length) := by
+  unfold hasPrefix at h
+  obtain ⟨t, ht⟩ := List.isPrefixOf_iff_prefix.mp h
+  apply String.toList_inj.mp
+  rw [String.toList_append, String.toList_ofList, ← String.length_toList, ← ht, List.drop_left]
+
+/-- an explicit `UNSPECIFIED` (with or without the prefix) is named exactly like the implicit one -/
+theorem addPrefix_unspecified (pre o : String) (h : trimPrefix pre o = "UNSPECIFIED") :
+    addPrefix pre o = pre ++ "UNSPECIFIED" := by
+  unfold trimPrefix at h
+  unfold addPrefix
+  by_cases hp : hasPrefix pre o = true
+  · rw [if_pos hp] at h ⊢
+    have := eq_append_of_hasPrefix pre o hp
+    rw [h] at this
+    exact this
+  · rw [if_neg hp] at h ⊢
+    rw [h]
+
+/-- the compiled values of any enum declaration: the zero value, then the declared options
+(without an explicit leading UNSPECIFIED) numbered from 1 -/
+theorem values_general (d : EnumDecl) :
+    d.values = (d.pfx ++ "UNSPECIFIED", 0) :: numberFrom d.pfx 1 d.rest := by
   obtain ⟨name, dp, dflt, opts⟩ := d
   cases opts with
-  | nil => unfold EnumDecl.values; simp [numberFrom]
+  | nil => unfold EnumDecl.values EnumDecl.rest; simp [numberFrom]
   | cons o rest =>
-    have := hwf.1
-    simp only [List.all_cons, Bool.and_eq_true, Bool.not_eq_true'] at this
-    have h1 : hasPrefix (EnumDecl.pfx ⟨name, dp, dflt, o :: rest⟩) o = false := this.1.1
-    have h2 : (o != "UNSPECIFIED") = true := this.1.2
-    have h3 : (trimPrefix (EnumDecl.pfx ⟨name, dp, dflt, o :: rest⟩) o == "UNSPECIFIED") = false := by
-      simp only [trimPrefix, h1, Bool.false_eq_true, if_false]
-      simpa using h2
-    show (if (trimPrefix _ o == "UNSPECIFIED") = true then _ else _) = _
-    rw [if_neg (by rw [h3]; decide)]
+    unfold EnumDecl.values EnumDecl.rest
+    simp only
+    by_cases h : (trimPrefix (EnumDecl.pfx ⟨name, dp, dflt, o :: rest⟩) o == "UNSPECIFIED") = true
+    · rw [if_pos h, if_pos h, addPrefix_unspecified _ o (by simpa using h)]
+    · rw [if_neg h, if_neg h]
 
-theorem numberOf_read (d : EnumDecl) (hwf : enumDeclWF d = true) (n : String) (k : Int)
+theorem numberOf_read (d : EnumDecl) (n : String) (k : Int)
     (h : d.numberOf n = some k) :
     optionByNumber (d.values.map fun nk => (trimPrefix d.pfx nk.1, nk.2)) k = some (normEnumName d n) := by
   unfold EnumDecl.numberOf EnumDecl.valMap at h
-  rw [values_plain d hwf] at h ⊢
+  rw [values_general d] at h ⊢
   simp only [lookupName_cons] at h
   simp only [List.map_cons, optionByNumber_cons]
   unfold normEnumName
@@ -161,22 +178,23 @@ theorem numberOf_read (d : EnumDecl) (hwf : enumDeclWF d = true) (n : String) (k
     cases h
     have : d.pfx ++ "UNSPECIFIED" = addPrefix d.pfx n := by simpa using heq
     rw [if_pos (by decide), this]
-  · have hge := lookup_numberFrom_ge d.pfx _ d.options 1 k h
+  · rename_i hne1
+    have hge := lookup_numberFrom_ge d.pfx _ d.rest 1 k h
     have hne : ((0 : Int) == k) = false := by
       simp only [beq_eq_false_iff_ne, ne_eq]; omega
     simp only [hne, Bool.false_eq_true, if_false]
-    exact byNumber_numberFrom d.pfx _ (trimPrefix d.pfx) d.options 1 k h
+    exact byNumber_numberFrom d.pfx _ (trimPrefix d.pfx) d.rest 1 k h
 
-theorem buildEnum_plain (d : EnumDecl) (hwf : enumDeclWF d = true) :
+theorem buildEnum_plain (d : EnumDecl) :
     buildEnum d.values = .ok { pfx := d.pfx, options := d.values.map fun nk => (trimPrefix d.pfx nk.1, nk.2) } := by
-  rw [values_plain d hwf]
+  rw [values_general d]
   simp [buildEnum, hasSuffix_append, trimSuffix_append]
 
 theorem readDecl_norm (d : EnumDecl) :
     readDecl d.name { pfx := d.pfx, options := d.values.map fun nk => (trimPrefix d.pfx nk.1, nk.2) } = normDecl d := by
   simp [readDecl, normDecl, List.map_map, Function.comp_def]
 
-theorem names_read (d : EnumDecl) (hwf : enumDeclWF d = true) (names : List String)
+theorem names_read (d : EnumDecl) (names : List String)
     (h : names.all (fun n => (d.numberOf n).isSome) = true) :
     ∃ a, mapValues d names = .ok a ∧
       namesOf (d.values.map fun nk => (trimPrefix d.pfx nk.1, nk.2)) a = .ok (names.map (normEnumName d)) ∧
@@ -191,7 +209,7 @@ theorem names_read (d : EnumDecl) (hwf : enumDeclWF d = true) (names : List Stri
     | none => simp [hv] at hx
     | some v =>
       have hv' : lookupName d.valMap (addPrefix d.pfx x) = some v := hv
-      have hr := numberOf_read d hwf x v hv
+      have hr := numberOf_read d x v hv
       exact ⟨v :: a, by simp only [mapValues, hv', ha],
         by simp only [namesOf, hr, h1, List.map_cons],
         by simp only [namesOfNotIn, hr, h2, List.map_cons]⟩
@@ -240,7 +258,7 @@ theorem key_rt (inArray : Bool) (format : Option KeyFormat) (entity : Option Ent
     buildFromStringProto
       { validate := vo.map fun ic => { required := r, typ := .item ic },
         list := lr.map fun p => .foreignKey (slotOf format) p, j5 := j }
-      (entity.map entityPsm) = .ok (normSchema (.key format entity lr)) := by
+      (entity.map entityPsm) = .ok (normSchema inArray (.key format entity lr)) := by
   subst hj
   have hent : ∀ e : EntityKey,
       ({ tenantKey := (entityPsm e).tenantType,
@@ -288,7 +306,7 @@ theorem key_rt (inArray : Bool) (format : Option KeyFormat) (entity : Option Ent
             have hk := wk_other p f hwk hp
             cases inArray <;> cases lr <;> cases entity <;>
               simp_all [buildFromStringProto, normSchema, normKeyFormat, slotOf, keyExtPattern, Exts.hasType, Exts.itemC,
-                schemaWFField, keyStringC] <;> (try exact hent _)
+                schemaWFField, keyStringC, keyFormatOfString] <;> (try exact hent _)
   · subst h1
     cases inArray <;> cases lr <;> cases entity <;>
       simp_all [buildFromStringProto, normSchema, normKeyFormat, slotOf, keyExtPattern, Exts.hasType, Exts.itemC,
@@ -301,7 +319,7 @@ theorem buildSchema_rt (inArray : Bool) (s : Schema) (hwf : schemaWFField inArra
     (a : ItemAnnot) (ha : buildField s = .ok a) (r : Option Bool) (vo : Option ItemC) (j : Option J5Ext)
     (hvo : vo = a.validate ∨ (a.validate = none ∧ vo = some .none))
     (hj : j = if inArray then none else a.j5) :
-    buildSchema a.kind (extsOf a r vo j) a.psmKey = .ok (normSchema s) := by
+    buildSchema a.kind (extsOf a r vo j) a.psmKey = .ok (normSchema inArray s) := by
   cases s with
   | float is64 lr =>
     simp only [buildField, Outcome.ok.injEq] at ha
@@ -386,8 +404,11 @@ theorem buildSchema_rt (inArray : Bool) (s : Schema) (hwf : schemaWFField inArra
         cases pat with
         | none => cases inArray <;> cases lr <;> simp [buildSchema, buildFromStringProto, normSchema]
         | some p =>
-          have hwk : wellKnownStringPattern p = none := by simpa using hp
-          cases inArray <;> cases lr <;> simp [buildSchema, buildFromStringProto, normSchema, hwk]
+          cases inArray with
+          | false => cases lr <;> simp [buildSchema, buildFromStringProto, normSchema]
+          | true =>
+            have hwk : wellKnownStringPattern p = none := by simpa using hp
+            cases lr <;> simp [buildSchema, buildFromStringProto, normSchema, hwk]
     · cases rules with
       | none => cases inArray <;> cases lr <;> simp [buildSchema, buildFromStringProto, normSchema]
       | some sr => simp at h1
@@ -403,7 +424,7 @@ theorem buildSchema_rt (inArray : Bool) (s : Schema) (hwf : schemaWFField inArra
       hj
   | enum d rules lr =>
     simp only [schemaWFField, Bool.and_eq_true] at hwf
-    obtain ⟨⟨hd, hr⟩, hf⟩ := hwf
+    obtain ⟨hr, hf⟩ := hwf
     obtain ⟨f, hfv, _, _⟩ := mapValues_ok d (lrDefaultFilters lr) hf
     cases rules with
     | none =>
@@ -412,18 +433,18 @@ theorem buildSchema_rt (inArray : Bool) (s : Schema) (hwf : schemaWFField inArra
       rcases hvo with hvo | ⟨h1, hvo⟩
       · subst hvo
         cases lr <;>
-          simp [buildSchema, buildEnum_plain d hd, readDecl_norm, namesOf, namesOfNotIn, listPayload, normSchema]
+          simp [buildSchema, buildEnum_plain d, readDecl_norm, namesOf, namesOfNotIn, listPayload, normSchema]
       · simp at h1
     | some er =>
       simp only [enumRulesWF, Bool.and_eq_true] at hr
-      obtain ⟨a1, ha1, hn1, _⟩ := names_read d hd er.inn hr.1
-      obtain ⟨a2, ha2, _, hn2⟩ := names_read d hd er.notIn hr.2
+      obtain ⟨a1, ha1, hn1, _⟩ := names_read d er.inn hr.1
+      obtain ⟨a2, ha2, _, hn2⟩ := names_read d er.notIn hr.2
       simp only [buildField, ha1, ha2, hfv, Outcome.ok.injEq] at ha
       subst ha
       rcases hvo with hvo | ⟨h1, hvo⟩
       · subst hvo
         cases lr <;>
-          simp [buildSchema, buildEnum_plain d hd, readDecl_norm, hn1, hn2, listPayload, normSchema]
+          simp [buildSchema, buildEnum_plain d, readDecl_norm, hn1, hn2, listPayload, normSchema]
       · simp at h1
 
 /-! ## field level -/
@@ -437,7 +458,7 @@ theorem schemaWF_of_field (b : Bool) (s : Schema) (h : schemaWFField b s = true)
   | enum d rules lr =>
     simp only [schemaWFField, Bool.and_eq_true] at h
     simp only [schemaWF, Bool.and_eq_true]
-    exact ⟨h.1.2, h.2⟩
+    exact h
   | _ => rfl
 
 def dummyMatcher : Matcher := ⟨fun p x => if p = id62Pattern then id62Shape x else false⟩
@@ -478,19 +499,63 @@ theorem hasItemConstraint_eq (s : Schema) (a : ItemAnnot) (ha : buildField s = .
   | decimal rules lr => simp only [buildField, Outcome.ok.injEq] at ha; subst ha; rfl
   | any od t lr => simp only [buildField, Outcome.ok.injEq] at ha; subst ha; rfl
 
+theorem isAny_norm (b : Bool) (s : Schema) : (normSchema b s).isAny = s.isAny := by
+  cases s <;> rfl
+
+theorem not_any_of_wf (s : Schema) (h : schemaWFField true s = true) : s.isAny = false := by
+  cases s <;> simp_all [schemaWFField, Schema.isAny]
+
+/-- without list rules on the (item) schema the writer emits no list annotation -/
+theorem buildField_list_none (s : Schema) (a : ItemAnnot) (ha : buildField s = .ok a)
+    (h : s.listRules = none) : a.list = none := by
+  cases s with
+  | key format entity lr =>
+    rw [buildField_key] at ha
+    simp only [Outcome.ok.injEq] at ha
+    subst ha
+    simp only [Schema.listRules] at h
+    subst h; rfl
+  | integer fmt rules lr =>
+    simp only [Schema.listRules] at h
+    subst h
+    cases rules with
+    | none => simp only [buildField, Outcome.ok.injEq] at ha; subst ha; rfl
+    | some r =>
+      simp only [buildField] at ha
+      split at ha <;> simp_all
+      subst ha; rfl
+  | enum d rules lr =>
+    simp only [Schema.listRules] at h
+    subst h
+    simp only [buildField] at ha
+    split at ha <;> try (simp at ha)
+    split at ha <;> simp_all
+    subst ha; rfl
+  | string f rules lr => simp only [Schema.listRules] at h; subst h; simp only [buildField, Outcome.ok.injEq] at ha; subst ha; rfl
+  | bool rules lr => simp only [Schema.listRules] at h; subst h; simp only [buildField, Outcome.ok.injEq] at ha; subst ha; rfl
+  | bytes rules => simp only [buildField, Outcome.ok.injEq] at ha; subst ha; rfl
+  | float is64 lr => simp only [Schema.listRules] at h; subst h; simp only [buildField, Outcome.ok.injEq] at ha; subst ha; rfl
+  | object r f hr => simp only [buildField, Outcome.ok.injEq] at ha; subst ha; rfl
+  | oneof r hr lr => simp only [Schema.listRules] at h; subst h; simp only [buildField, Outcome.ok.injEq] at ha; subst ha; rfl
+  | timestamp hr lr => simp only [Schema.listRules] at h; subst h; simp only [buildField, Outcome.ok.injEq] at ha; subst ha; rfl
+  | date rules lr => simp only [Schema.listRules] at h; subst h; simp only [buildField, Outcome.ok.injEq] at ha; subst ha; rfl
+  | decimal rules lr => simp only [Schema.listRules] at h; subst h; simp only [buildField, Outcome.ok.injEq] at ha; subst ha; rfl
+  | any od t lr => simp only [Schema.listRules] at h; subst h; simp only [buildField, Outcome.ok.injEq] at ha; subst ha; rfl
+
 theorem field_roundtrip (p : Property) (h : WFField p = true) : roundtrip p = .ok (normField p) := by
   simp only [WFField, Bool.and_eq_true, Bool.not_eq_true'] at h
-  obtain ⟨⟨hs, hnot⟩, harr⟩ := h
+  obtain ⟨⟨⟨hs, hml⟩, hnot⟩, harr⟩ := h
   obtain ⟨a, ha, hprim⟩ := buildField_ok _ _ hs
-  have hreq : (p.required || psmPrimaryKey a.psmKey) = p.effRequired := by
+  have hreq : (p.required || (!p.schema.isMap && psmPrimaryKey a.psmKey)) = p.effRequired := by
     rw [hprim, ← primaryKey_eq]; rfl
   obtain ⟨name, num, req, opt, desc, schema⟩ := p
   cases schema with
   | single s =>
-    simp only [FieldSchema.item, FieldSchema.isArray] at hs ha hreq
+    simp only [FieldSchema.item, FieldSchema.isArray, FieldSchema.isMap, Bool.or_self, Bool.not_false,
+      Bool.true_and] at hs ha hreq
     have hrt := fun r vo j hvo hj => buildSchema_rt false s hs a ha r vo j hvo hj
-    simp only [roundtrip, writeField, FieldSchema.item, ha, hreq, hnot, FieldSchema.isArray, readField,
-      Bool.false_eq_true, if_false]
+    simp only [roundtrip, writeField, FieldSchema.item, FieldSchema.isArray, FieldSchema.isMap, Bool.not_false,
+      Bool.true_and, ha, hreq, hnot, readField, Bool.false_eq_true, if_false]
     cases hv : a.validate with
     | none =>
       cases hr : (Property.effRequired ⟨name, num, req, opt, desc, .single s⟩) with
@@ -517,13 +582,15 @@ theorem field_roundtrip (p : Property) (h : WFField p = true) : roundtrip p = .o
         subst hopt
         simp [topExts, fieldValidate, hv, fieldJ5, setRequired, this, normField, normFieldSchema, hr]
   | array s rules sf =>
-    simp only [FieldSchema.item, FieldSchema.isArray] at hs ha hreq harr
+    simp only [FieldSchema.item, FieldSchema.isArray, FieldSchema.isMap, Bool.or_false, Bool.not_false,
+      Bool.true_and] at hs ha hreq harr
     have hopt : opt = false := by simpa using harr
     subst hopt
     have hic := hasItemConstraint_eq s a ha
+    have hany : (normSchema true s).isAny = false := by rw [isAny_norm]; exact not_any_of_wf s hs
     have hrt := fun r vo hvo => buildSchema_rt true s hs a ha r vo none hvo rfl
-    simp only [roundtrip, writeField, FieldSchema.item, ha, hreq, FieldSchema.isArray, readField,
-      Bool.false_and, Bool.false_eq_true, if_false, if_true]
+    simp only [roundtrip, writeField, FieldSchema.item, FieldSchema.isArray, FieldSchema.isMap, Bool.not_false,
+      Bool.true_and, ha, hreq, readField, Bool.false_and, Bool.false_eq_true, if_false, if_true]
     cases hv : a.validate with
     | none =>
       have h0 := hrt none none (Or.inl hv.symm)
@@ -532,11 +599,11 @@ theorem field_roundtrip (p : Property) (h : WFField p = true) : roundtrip p = .o
       | none =>
         cases hr : (Property.effRequired ⟨name, num, req, false, desc, .array s none sf⟩) <;>
           simp [topExts, fieldValidate, wrapArray, hv, fieldJ5, setRequired, Exts.repeatedC, h0, normField,
-            normFieldSchema, hr, hic]
+            normFieldSchema, hr, hic, hany]
       | some ar =>
         cases hr : (Property.effRequired ⟨name, num, req, false, desc, .array s (some ar) sf⟩) <;>
           simp [topExts, fieldValidate, wrapArray, hv, fieldJ5, setRequired, Exts.repeatedC, h0, normField,
-            normFieldSchema, hr, hic]
+            normFieldSchema, hr, hic, hany]
     | some ic =>
       have h0 := hrt none (some ic) (Or.inl hv.symm)
       simp only [extsOf, Option.map_some] at h0
@@ -544,11 +611,49 @@ theorem field_roundtrip (p : Property) (h : WFField p = true) : roundtrip p = .o
       | none =>
         cases hr : (Property.effRequired ⟨name, num, req, false, desc, .array s none sf⟩) <;>
           simp [topExts, fieldValidate, wrapArray, hv, fieldJ5, setRequired, Exts.repeatedC, h0, normField,
-            normFieldSchema, hr, hic]
+            normFieldSchema, hr, hic, hany]
       | some ar =>
         cases hr : (Property.effRequired ⟨name, num, req, false, desc, .array s (some ar) sf⟩) <;>
           simp [topExts, fieldValidate, wrapArray, hv, fieldJ5, setRequired, Exts.repeatedC, h0, normField,
-            normFieldSchema, hr, hic]
+            normFieldSchema, hr, hic, hany]
+  | map s rules sf =>
+    simp only [FieldSchema.item, FieldSchema.isArray, FieldSchema.isMap, Bool.false_or, Bool.true_and,
+      Bool.not_true, Bool.false_and, Bool.or_false] at hs ha harr hml
+    have hopt : opt = false := by simpa using harr
+    subst hopt
+    have hr : ∀ r' : Option MapRules, Property.effRequired ⟨name, num, req, false, desc, .map s r' sf⟩ = req := by
+      intro r'; simp [Property.effRequired, Property.primaryKey]
+    have hic := hasItemConstraint_eq s a ha
+    have hany : (normSchema true s).isAny = false := by rw [isAny_norm]; exact not_any_of_wf s hs
+    have hl : a.list = none := buildField_list_none s a ha (by simpa using hml)
+    have hrt := fun r vo hvo => buildSchema_rt true s hs a ha r vo none hvo rfl
+    simp only [roundtrip, writeField, FieldSchema.item, FieldSchema.isArray, FieldSchema.isMap, Bool.not_true,
+      Bool.false_and, Bool.or_false, ha, readField, Bool.false_eq_true, if_false, if_true]
+    cases hv : a.validate with
+    | none =>
+      have h0 := hrt none none (Or.inl hv.symm)
+      simp only [extsOf, Option.map_none, hl] at h0
+      cases rules with
+      | none =>
+        cases req <;>
+          simp [topExts, fieldValidate, wrapMap, hv, fieldJ5, setRequired, Exts.mapC, h0, normField,
+            normFieldSchema, hr, hic, hany]
+      | some ar =>
+        cases req <;>
+          simp [topExts, fieldValidate, wrapMap, hv, fieldJ5, setRequired, Exts.mapC, h0, normField,
+            normFieldSchema, hr, hic, hany]
+    | some ic =>
+      have h0 := hrt none (some ic) (Or.inl hv.symm)
+      simp only [extsOf, Option.map_some, hl] at h0
+      cases rules with
+      | none =>
+        cases req <;>
+          simp [topExts, fieldValidate, wrapMap, hv, fieldJ5, setRequired, Exts.mapC, h0, normField,
+            normFieldSchema, hr, hic, hany]
+      | some ar =>
+        cases req <;>
+          simp [topExts, fieldValidate, wrapMap, hv, fieldJ5, setRequired, Exts.mapC, h0, normField,
+            normFieldSchema, hr, hic, hany]
 
 
 /-! ## the normal form means the same -/
@@ -563,7 +668,7 @@ theorem intOk_norm (r : IntRules) (v : Int) : intOk (normIntRules r) v = intOk r
     simp [intOk, normIntRules, normExcl, optAll]
 
 theorem j5Item_norm (M : Matcher) (hM : ∀ x, M.run id62Pattern x = id62Shape x) (s : Schema)
-    (hne : s.isEnum = false) (x : Scalar) : j5Item M (normSchema s) x = j5Item M s x := by
+    (hne : s.isEnum = false) (b : Bool) (x : Scalar) : j5Item M (normSchema b s) x = j5Item M s x := by
   cases s with
   | enum d r lr => simp [Schema.isEnum] at hne
   | integer fmt rules lr =>
@@ -583,7 +688,7 @@ theorem j5Item_norm (M : Matcher) (hM : ∀ x, M.run id62Pattern x = id62Shape x
       cases f with
       | custom p =>
         by_cases hp : p = id62Pattern
-        · subst hp; simp [normKeyFormat, hM]
+        · subst hp; cases b <;> simp [normKeyFormat, hM]
         · simp [normKeyFormat, hp]
       | informal => cases lr <;> simp [normKeyFormat]
       | uuid => simp [normKeyFormat]
@@ -597,7 +702,7 @@ theorem j5Item_norm (M : Matcher) (hM : ∀ x, M.run id62Pattern x = id62Shape x
   | decimal r lr => cases x <;> simp [normSchema, j5Item, Schema.isMessage]
   | any o t lr => cases x <;> simp [normSchema, j5Item, Schema.isMessage]
 
-theorem isMessage_norm (s : Schema) : (normSchema s).isMessage = s.isMessage := by
+theorem isMessage_norm (b : Bool) (s : Schema) : (normSchema b s).isMessage = s.isMessage := by
   cases s <;> rfl
 
 theorem primaryKey_norm (p : Property) : (normField p).primaryKey = p.primaryKey := by
@@ -617,6 +722,7 @@ theorem primaryKey_norm (p : Property) : (normField p).primaryKey = p.primaryKey
     | none => rfl
     | some e => obtain ⟨t, tk⟩ := e; cases t <;> try rfl
                 rename_i b; cases b <;> rfl
+  | map s r sf => rfl
 
 theorem j5Accepts_norm (M : Matcher) (hM : ∀ x, M.run id62Pattern x = id62Shape x) (optPres : Bool)
     (p : Property) (hne : p.schema.item.isEnum = false) (v : FieldVal) :
@@ -633,7 +739,7 @@ theorem j5Accepts_norm (M : Matcher) (hM : ∀ x, M.run id62Pattern x = id62Shap
     cases v with
     | absent => simp only [j5Accepts, normField, normFieldSchema] at hreq ⊢; simp [hreq]
     | single x =>
-      have hi := j5Item_norm M hM s hne x
+      have hi := j5Item_norm M hM s hne false x
       simp only [j5Accepts, normField, normFieldSchema, Property.hasPresence, isMessage_norm] at hreq ⊢
       simp [hreq, hi]
     | list xs => rfl
@@ -643,8 +749,21 @@ theorem j5Accepts_norm (M : Matcher) (hM : ∀ x, M.run id62Pattern x = id62Shap
     | absent => rfl
     | single x => rfl
     | list xs =>
-      have hi : xs.all (j5Item M (normSchema s)) = xs.all (j5Item M s) := by
-        congr 1; funext x; exact j5Item_norm M hM s hne x
+      have hi : xs.all (j5Item M (normSchema true s)) = xs.all (j5Item M s) := by
+        congr 1; funext x; exact j5Item_norm M hM s hne true x
+      simp only [j5Accepts, normField, normFieldSchema] at hreq ⊢
+      rw [hreq, hi]
+      cases rules with
+      | some r => rfl
+      | none => cases hasItemConstraint s <;> simp [optAll]
+  | map s rules sf =>
+    simp only [FieldSchema.item] at hne
+    cases v with
+    | absent => rfl
+    | single x => rfl
+    | list xs =>
+      have hi : xs.all (j5Item M (normSchema true s)) = xs.all (j5Item M s) := by
+        congr 1; funext x; exact j5Item_norm M hM s hne true x
       simp only [j5Accepts, normField, normFieldSchema] at hreq ⊢
       rw [hreq, hi]
       cases rules with
